@@ -119,7 +119,26 @@ def big_value(rng):
     return {"text " + str(i): prose(rng, n // 3) for i in range(3)}
 
 
+def aliased(rng):
+    """A value in which one container OBJECT is referenced several times (a DAG, not a cycle)."""
+    x = rng.choice([[1, "a"], {"k": [None]}, [], {}, [[0]]])
+    shape = rng.random()
+    if shape < 0.4:
+        return [x, x]
+    if shape < 0.7:
+        return {"a": x, "b": [x], "c": {"d": x}}
+    return [[x], x, {"x": x}]
+
+
 def gen_args(rng):
+    if rng.random() < 0.08:
+        x = rng.choice([[1, 2], {"k": "v"}, []])
+        r = rng.random()
+        if r < 0.4:
+            return [x, x], {}
+        if r < 0.7:
+            return [aliased(rng)], {}
+        return [], {"p": x, "q": x}
     if rng.random() < 0.12:
         if rng.random() < 0.5:
             return [big_value(rng)], {}
@@ -131,6 +150,8 @@ def gen_args(rng):
 
 def gen_planned(rng):
     r = rng.random()
+    if r < 0.06:
+        return aliased(rng)
     if r < 0.12:
         return big_value(rng)
     if r < 0.4:
